@@ -233,9 +233,13 @@ REG.contract(
     "nixio.hdf5.h5group.H5Group.delete", assumed=True, props=[],
     params=dict(self=Obj("H5Group"), id_or_name=Str, delete_if_empty=Bool), defaults=dict(delete_if_empty=VBool(True)),
     modifies=["link", "ord"],
+    let="g = gid(self); byid = uuid_text(id_or_name) and g != 0 and idx_of_id(g, id_or_name) >= 0; "
+        "k = ite_(byid, nth_name(g, idx_of_id(g, id_or_name)), id_or_name)",
     raises={"KeyError": ("uuid_text(id_or_name) and idx_of_id(gid(self), id_or_name) < 0 and link(gid(self), id_or_name) == 0",
                          "helper"),
             "ValueError": ("False", "helper")},
+    ensures=["(not delete_if_empty) implies (same(sigma('link'), link_set(old(sigma('link')), g, k, 0)) and "
+             "same(sigma('ord'), ord_set(old(sigma('ord')), g, ord_without(old(order(g)), k))))"],
     note="ASSUMED: unlinks the child with that id (or name); if the group is then empty and not a top-level container it is "
          "unlinked from its parent too; the child object itself is untouched")
 
